@@ -200,7 +200,17 @@ func loadGlobal(repo string) (*Global, error) {
 	sort.Slice(g.allFns, func(i, j int) bool { return g.allFns[i].String() < g.allFns[j].String() })
 	for _, fn := range g.allFns {
 		if isRainFn(fn) {
-			g.fnByID[fnID(fn)] = fn
+			id := fnID(fn)
+			// several functions share an id when they are instances of one generic function:
+			// the generic origin (verified once, for every type argument) wins, then any
+			// instance with a body
+			if cur, ok := g.fnByID[id]; ok {
+				curOrigin := cur.Origin() == nil || cur.Origin() == cur
+				if cur.Blocks != nil && (curOrigin || fn.Blocks == nil || (fn.Origin() != nil && fn.Origin() != fn)) {
+					continue
+				}
+			}
+			g.fnByID[id] = fn
 		}
 	}
 	g.scanCellMode()
